@@ -32,7 +32,7 @@ PROBES_EXPECTED = tuple(cw.PROBE_PATTERNS)
 
 
 def batches(tier):
-    k = 1 if tier == 'quick' else 12
+    k = 1 if tier == 'quick' else 40
     return [{'name': 'single', 'n': 3000 * k, 'profile': 'c17-single'},
             {'name': 'concurrent', 'n': 12000 * k, 'profile': 'c17'}]
 
